@@ -8,7 +8,7 @@ EXPLANATION = (
     "Static decision on the MIR of /repo's working tree (rumqttc v4 and v5): the timing bounds of C18 are not statically decidable; the structural clauses that are: "
     "(R-C18-flag) await_pingresp is set true only in outgoing_ping, on the path past the `if self.await_pingresp { return Err(AwaitPingResp) }` test, and cleared only by handle_incoming_pingresp, clean and new "
     "(a second unanswered ping is therefore reported, an answered one never is); "
-    "(R-C18-branch) the keep-alive branch of select() resets the timer and issues Request::PingReq on the same path, and (v4) the timer is created in poll() only when keep_alive is non-zero; "
+    "(R-C18-branch) the keep-alive branch of select() resets the timer and issues Request::PingReq on the same path, and the timer is created in poll() only when keep_alive is non-zero (v4: configured zero; v5: Server Keep Alive 0); "
     "(R-C18-connect-timeout) in poll() the future passed to time::timeout is connect(..) bounded by the configured connection timeout, and the elapsed edge returns ConnectionError::NetworkTimeout. "
     "(R-C18-interval) the timer is created with and re-armed to now + options.keep_alive, and the event loop rewrites that option only from the CONNACK's Server Keep Alive (v5); "
     "NOT decided (most of the statement): every timing bound (ping at least once per interval, failure no later than the second interval, no false alarm).")
@@ -99,7 +99,8 @@ def branch(ctx, prog, ver):
     if not sleeps:
         ctx.violation(rule, poll.id, "no timer", "poll() no longer creates the keep-alive timer", site=poll.fn_loc())
         return
-    if ver == "v4":
+    if True:
+        # both versions: v4 lets the user configure zero; in v5 the broker can assign zero with Server Keep Alive
         from .c15 import switch_on_call_result
         sw = switch_on_call_result(poll, r"Duration::is_zero$")
         if sw and all(dominates(poll, sw[0][2], s) for s in sleeps):
